@@ -238,7 +238,7 @@ def _case(draw):
                 "sampler": draw(st.sampled_from(["importance", "smc", "smc", "emcee_smc", "minipcn", "emcee"])),
                 "n": draw(st.integers(4, 24)), "d": draw(st.integers(1, 3)), "seed": draw(st.integers(0, 2**31 - 1)),
                 "n_final": draw(st.sampled_from([None, None, 7, 30])), "pre": draw(st.sampled_from(["none", "default"]))}
-    return {"part": "flow", "backend": draw(st.sampled_from(["zuko"] * 9 + ["flowjax"])), "ns": draw(st.sampled_from(NS)),
+    return {"part": "flow", "backend": draw(st.sampled_from(["zuko"] * 24 + ["flowjax"])), "ns": draw(st.sampled_from(NS)),
             "width": draw(st.sampled_from(WIDTHS)), "d": draw(st.integers(1, 3)), "seed": draw(st.integers(0, 10**6)),
             "sampler": draw(st.sampled_from(["wrap", "wrap", "importance", "smc"]))}
 
@@ -259,7 +259,10 @@ def _sampler_case(case, ctx):
     dreq, wreq = _request(case["req"], ns)
     d = case["d"]
 
+    seen_widths = []
+
     def log_likelihood(s):
+        seen_widths.append(env.width_of(s.x))
         return -0.5 * xp.sum((s.x - 0.3) ** 2, axis=-1)
 
     def log_prior(s):
@@ -305,6 +308,10 @@ def _sampler_case(case, ctx):
                 ctx.fail("sampler:namespace", f"{where}.{f} is {type(v).__module__}.{type(v).__name__}, expected namespace {want_ns}", case, where=where.split("[")[0])
 
     chk(samples, "returned", out_ns or ns)
+    if wreq is not None and any(w != wreq for w in seen_widths):
+        bad = sorted(set(w for w in seen_widths if w != wreq))
+        ctx.fail("sampler:built-population-width", f"{case['sampler']} on {ns}: a population handed to the user's likelihood had dtype {bad}, "
+                                                   f"the user requested {wreq}", case, sampler=case["sampler"])
     if hist is not None:
         for t, p in enumerate(hist.sample_history):
             chk(p, f"history.sample_history[{t}]", ns)
